@@ -26,6 +26,7 @@ func c09(c *Ctx) {
 	publishOrderRule(c, "R5")
 	c09R6(c)
 	shared(c, "C05", c05R2)
+	shared(c, "C10", vmEquivShared)
 }
 
 // R6: the execution core the application calls into is the reference's.
